@@ -45,6 +45,11 @@ class VClock(object):
         return self.now
 
     def sleep(self, d):
+        # a blocking library call made by the driver (UdpClient.waitForDisconnect sleeps between its updates): the world
+        # moves on meanwhile - the hook advances the clock and runs everybody else
+        hook = getattr(self, "sleep_hook", None)
+        if hook is not None:
+            hook(d)
         return None
 
     def __getattr__(self, name):          # anything else (strftime...) from the real module
@@ -342,8 +347,30 @@ class ClientEnd(object):
                     fn(self)
         self.udp.connect(SERVER_ADDR, cb if (with_callback or self.on_connected) else None)
 
+    def wait_for_disconnect(self):
+        """the blocking UdpClient.waitForDisconnect(): it calls update() and time.sleep(send_interval) in a loop; every sleep
+        advances the virtual clock and lets the network and the server run (this client is not ticked from outside meanwhile)"""
+        w = self.world
+        self.in_blocking_call = True
+        driver = threading.get_ident()
+
+        def hook(d):
+            if threading.get_ident() == driver and not getattr(w, "_in_sleep", False):
+                w._in_sleep = True
+                try:
+                    w.step(1, dt_override=max(d, 1e-4))
+                finally:
+                    w._in_sleep = False
+        w.clock.sleep_hook = hook
+        try:
+            self.udp.waitForDisconnect()
+        finally:
+            w.clock.sleep_hook = None
+            self.in_blocking_call = False
+        w.counters.inc("client_wait_for_disconnect_calls")
+
     def tick(self):
-        if not self.active or self.udp.conn is None:
+        if not self.active or self.udp.conn is None or getattr(self, "in_blocking_call", False):
             return
         try:
             self.udp.update()
